@@ -278,7 +278,13 @@ def main():
                 if cls is None:
                     orc.fail("nesting", prefix + m.name, "no such message class in the generated module")
                     continue
-                dout = cls.pb(cls()).DESCRIPTOR
+                try:
+                    dout = cls.pb(cls()).DESCRIPTOR
+                except BaseException as e:  # noqa
+                    orc.fail("class-unusable", prefix + m.name, f"{m.name}.pb({m.name}()) raised {type(e).__name__}: {e}"[:300])
+                    rec["ok"] = False
+                    rec["error"] = f"{m.name}: {type(e).__name__}: {e}"[:300]
+                    continue
                 rec["msgs"].append(dump_msg_desc(dout))
                 orc.compare_message(din, dout, cls)
                 classes_of(cls, din, pairs)
